@@ -79,10 +79,17 @@ Print Assumptions C17_span_loss_cache.
 Theorem C17_span_loss_cache_stable : forall c r r', pad_run c r = Ok r' -> (run_dsl c r' == run_dsl c r)%Q.
 Proof. exact run_dsl_stable. Qed.
 Print Assumptions C17_span_loss_cache_stable.
-(* F19: Fiber.to_json does not export lumped_losses *)
-Theorem C17_export_drops_lumped : forall f, f_lumped (export_fib f) = [].
-Proof. exact export_drops_lumped. Qed.
-Print Assumptions C17_export_drops_lumped.
+(* the export keeps the lumped losses (gnpy fix 562b868b for finding F19; witness kept in corpus/C17/f19_lumped.json) *)
+Theorem C17_export_keeps_lumped : forall f,
+  Forall2 (fun a b => (fst a == fst b)%Q /\ (snd a == snd b)%Q) (f_lumped f) (f_lumped (export_fib f)) /\
+  (qsum (map snd (f_lumped (export_fib f))) == qsum (map snd (f_lumped f)))%Q.
+Proof. exact export_keeps_lumped. Qed.
+Print Assumptions C17_export_keeps_lumped.
+(* node-level design bands survive the export whenever there is at least one (gnpy fix 37844749 for finding F8) *)
+Theorem C17_design_bands_roundtrip : forall (A : Type) (si bands : list A), bands <> [] ->
+  reload_bands si (export_bands bands) = bands.
+Proof. intros A. exact bands_roundtrip. Qed.
+Print Assumptions C17_design_bands_roundtrip.
 (* SimParams: estimate_raman_gain leaves the shared parameters exactly as it found them, field by field, for every
    setting that set_params can produce *)
 Theorem C17_simparams_restored : forall dn dr st, set_params dn dr = Ok st ->
